@@ -422,6 +422,25 @@ def run_errors(ctx):
                 ctx.violation('C19:error:graded_instead_of_refused:' + kind, 'returned %r' % (out.value,), wit)
             elif not lib.err_family(out.exc).startswith(fam):
                 ctx.violation('C19:error:class:' + kind, 'expected %s, got %r' % (fam, out.exc), wit)
+    # instructor-only names of every kind: a single numbered instance, an author constant (the other instances stay usable)
+    for i in range(ctx.pick(2, 10)):
+        for sub, want in ((['1', '5', 'n^2+0*c_{1}', 'n'], 'refused'), (['1', '5', 'n^2+0*cc', 'n'], 'refused'), (['c_{1}-c_{1}+1', '5', 'n^2', 'n'], 'refused'),
+                          (['1', '5+0*cc', 'n^2', 'n'], 'refused'), (['1', '5', 'n^2+c_{1}-c_{1}', 'n'], 'refused'),
+                          (['1', '5', 'n^2+0*c_{2}', 'n'], 'graded'), (['1', '5', 'n^2', 'n'], 'graded')):
+            g = SumGrader(answers={'lower': '1', 'upper': '5', 'summand': 'n^2+0*c_{1}+0*cc', 'summation_variable': 'n'}, numbered_vars=['c'],
+                          instructor_vars=['c_{1}', 'cc'], user_constants={'cc': 3.0}, samples=2, tolerance=1e-9)
+            out = lib.call(ctx, g, None, list(sub))
+            ctx.ev()
+            ctx.count('student_error_cases')
+            wit = {'submission': sub, 'kind': 'instructor_variable', 'instructor_vars': ['c_{1}', 'cc'], 'numbered_vars': ['c'], 'outcome': out.brief()}
+            ctx.nontrivial(wit)
+            if want == 'refused':
+                if out.returned:
+                    ctx.violation('C19:error:graded_instead_of_refused:instructor_variable', 'returned %r' % (out.value,), wit)
+                elif not lib.err_family(out.exc).startswith('StudentFacing:UndefinedVariable'):
+                    ctx.violation('C19:error:class:instructor_variable', 'expected UndefinedVariable, got %r' % (out.exc,), wit)
+            elif not out.returned or out.value['ok'] is not True:
+                ctx.violation('C19:error:honest_sum_refused', repr(out.brief()), wit)
     # names of default functions stay reserved as summation variables also when a blacklist / whitelist excludes them from use
     for restr in ({'blacklist': ['sin']}, {'whitelist': ['cos']}, {'whitelist': [None]}, {'blacklist': ['exp', 'sin']}):
         for var in ('sin', 'exp', 'cos'):
